@@ -263,9 +263,11 @@ class Flow:
                     continue
                 for kind, val in entries:
                     e = val if isinstance(val, ast.AST) else (val[1] if kind == "unpack" else None)
+                    while isinstance(e, tuple):  # nested unpacking: ("unpack", value, i, n) inside another
+                        e = e[1] if len(e) > 1 else None
                     if kind == "aug":
                         e = val.value
-                    if e is None:
+                    if not isinstance(e, ast.AST):
                         continue
                     used = {n.id for n in ast.walk(e) if isinstance(n, ast.Name)}
                     if used & derived:
